@@ -10,16 +10,15 @@ static int _input_ref_init(void *ptr, const void *src)
 {
 	MPT_INTERFACE(metatype) *const *from;
 	MPT_INTERFACE(metatype) *meta = 0;
-	intptr_t ret = 0;
 	
 	if ((from = src)
 	    && (meta = *from)
-	    && ((ret = meta->_vptr->addref(meta)) < 0)) {
+	    && !meta->_vptr->addref(meta)) {
 		return MPT_ERROR(BadOperation);
 	}
 	*((MPT_INTERFACE(metatype) **) ptr) = meta;
-	    
-	return ret ? 1 : 0;
+	
+	return meta ? 1 : 0;
 }
 static void _input_ref_fini(void *ptr)
 {
